@@ -1,7 +1,7 @@
 \* reference configuration: every report of at most MaxLen lines that extends a prefix
 \* (quick: PrefixHdr/5, PrefixEmpty/3; thorough: PrefixHdr/6, PrefixTrap/8, PrefixEmpty/4)
 SPECIFICATION Spec
-INVARIANTS Agree RepIgnored CapOK EraseOK OnlyContribution TrapRule
+INVARIANTS Agree RepIgnored SymTextOK CapOK EraseOK OnlyContribution TrapRule
 PROPERTIES PostStable
 CHECK_DEADLOCK FALSE
 CONSTANTS
